@@ -16,6 +16,10 @@ Lemma br_bind {A B} (P : A -> Prop) (Q : B -> Prop) (r : res A) (k : A -> res B)
   BRes P r -> (forall a, P a -> BRes Q (k a)) -> BRes Q (rbind r k).
 Proof. destruct r as [a|s]; cbn [BRes rbind]; auto. Qed.
 
+Ltac bsplit :=
+  cbn; unfold TypedeclB, ProcdeclB, VardeclB, ParamdeclB, GdeclB, RefB; cbn;
+  repeat match goal with |- _ /\ _ => split end; try assumption; try exact I.
+
 Section SemBound.
 Variable M : nat.
 
@@ -36,7 +40,7 @@ Fixpoint br_gdt_te l g c off (t : typeexpr) {struct t} :
   TexprB M off t -> BRes (fun r => TexprB M off (fst r)) (get_data_type_te l g c t).
 Proof.
   destruct t as [n | size base inf]; cbn [get_data_type_te TexprB].
-  - intros H. destruct (text_eqb _ _); [exact H|].
+  - intros H. try (destruct (text_eqb _ _); [exact H|]).
     destruct (lt_lookup l g _) as [[]|];
       try (apply br_bind with (P := IdB M off); [apply br_ident_flag, H | intros n' Hn'; exact Hn']).
     exact H.
@@ -74,15 +78,15 @@ Lemma br_build_typedecl d t off :
   TypedeclB M off d -> TabB t -> BRes (fun r => TypedeclB M off (fst r) /\ TabB (snd r)) (build_typedecl d t off).
 Proof.
   intros (Hi & Hn & Hty) Ht. unfold build_typedecl. destruct (td_name d) as [name|] eqn:En.
-  2:{ cbn. split; [|exact Ht]. unfold TypedeclB. rewrite En. repeat split; assumption. }
+  2:{ cbn. split; [|exact Ht]. unfold TypedeclB. rewrite En. bsplit. }
   cbn [OptB] in Hn. destruct (text_eqb _ _).
   - apply br_bind with (P := IdB M off); [apply br_ident_flag, Hn|].
-    intros n' Hn'. cbn. repeat split; assumption.
+    intros n' Hn'. cbn. bsplit.
   - apply br_bind with (P := fun r => OptB (RefB (TexprB M)) off (fst r)); [apply br_gdt, Hty|].
     intros [ty' dt] Hty'. cbn [fst] in Hty'.
     destruct (enter t (id_val name) _) as [t' ok] eqn:Een.
     apply br_bind with (P := IdB M off); [destruct ok; [exact Hn | apply br_ident_flag, Hn]|].
-    intros n' Hn'. cbn. repeat split; try assumption.
+    intros n' Hn'. cbn. bsplit.
     eapply TabB_enter; [exact Een | exact Ht | intros pe E; discriminate E].
 Qed.
 
@@ -98,7 +102,7 @@ Proof.
   { destruct dt as [d|]; [|exact Hn]. destruct (_ && _); [apply br_ident_flag, Hn | exact Hn]. }
   intros name1 Hn1. destruct (enter l (id_val name) _) as [l' ok].
   apply br_bind with (P := IdB M (off + o)); [destruct ok; [exact Hn1 | apply br_ident_flag, Hn1]|].
-  intros name2 Hn2. cbn. repeat split; assumption.
+  intros name2 Hn2. cbn. bsplit.
 Qed.
 
 Lemma br_build_parameters off ps pn g l :
@@ -122,7 +126,7 @@ Proof.
   intros [ty' dt] Hty'. cbn [fst] in Hty'.
   destruct (enter l (id_val name) _) as [l' ok].
   apply br_bind with (P := IdB M (off + o)); [destruct ok; [exact Hn | apply br_ident_flag, Hn]|].
-  intros name' Hn'. cbn. repeat split; assumption.
+  intros name' Hn'. cbn. bsplit.
 Qed.
 
 Lemma br_build_variables off vs pn g l :
@@ -141,7 +145,7 @@ Lemma br_build_procdecl d t off :
   BRes (fun r => ProcdeclB M off (fst r) /\ TabB (snd r)) (build_procdecl d t off).
 Proof.
   intros (Hi & Hn & Hps & Hvs & Hss) H0 Ht. unfold build_procdecl. destruct (pd_name d) as [name|] eqn:En.
-  2:{ cbn. split; [|exact Ht]. unfold ProcdeclB. rewrite En. repeat split; assumption. }
+  2:{ cbn. split; [|exact Ht]. unfold ProcdeclB. rewrite En. bsplit. }
   cbn [OptB] in Hn.
   apply br_bind with (P := fun r => Forall (RefB (ParamdeclB M) off) (fst (fst r))); [apply br_build_parameters, Hps|].
   intros [[ps' l1] params] Hps'. cbn [fst] in Hps'.
@@ -149,7 +153,7 @@ Proof.
   intros [vs' l2] Hvs'. cbn [fst] in Hvs'.
   destruct (enter t (id_val name) _) as [t' ok] eqn:Een.
   apply br_bind with (P := IdB M off); [destruct ok; [exact Hn | apply br_ident_flag, Hn]|].
-  intros n' Hn'. cbn. split; [repeat split; assumption|].
+  intros n' Hn'. cbn. split; [bsplit|].
   eapply TabB_enter; [exact Een | exact Ht |]. intros pe [= <-]. cbn [pe_range pe_name shift_range info_range fst].
   rewrite H0. pose proof (proj1 Hn). lia.
 Qed.
@@ -246,7 +250,7 @@ Proof.
       * intros index' Hi'.
         apply br_bind with (P := fun r => VarB M off (fst r)); [apply br_an_var, Ha|].
         intros [arr' aty] Ha'. cbn [fst] in Ha'.
-        destruct aty as [[]|]; cbn; repeat split; try assumption; apply InfoB_range_err, Hinf.
+        destruct aty as [[]|]; cbn; bsplit; apply InfoB_range_err, Hinf.
   - destruct e as [op l r inf | a inf | i | op a inf | v | inf]; cbn [an_expr ExprB]; intros H; try exact H.
     + destruct H as (Hinf & Hl & Hr).
       apply br_bind with (P := fun r => ExprB M off (fst r)); [apply br_an_expr, Hl|].
@@ -296,7 +300,7 @@ Fixpoint br_an_stmt off (s : stmt) {struct s} : StmtB M off s -> BRes (StmtB M o
 Proof.
   destruct s as [inf | v e inf | name args inf | c t e inf | c b inf | body inf | inf]; cbn [an_stmt];
     try (intros H; exact H).
-  - intros (Hinf & Hv & He). destruct e as [[e o]|]; [|cbn; repeat split; assumption].
+  - intros (Hinf & Hv & He). destruct e as [[e o]|]; [|cbn; bsplit].
     apply br_bind with (P := fun r => VarB M off (fst r)); [apply br_an_var, Hv|].
     intros [v' lty] Hv'. cbn [fst] in Hv'.
     apply br_bind with (P := fun r => ExprB M (off + o) (fst r)); [apply br_an_expr, He|].
@@ -306,9 +310,9 @@ Proof.
     destruct (negb (is_int l)); [apply InfoB_range_err, Hinf | exact Hinf].
   - intros (Hinf & Hn & Ha).
     destruct (lt_lookup L G _) as [[]|];
-      try (cbn; repeat split; try assumption; apply InfoB_range_err, Hinf).
+      try (cbn; bsplit; apply InfoB_range_err, Hinf).
     apply br_bind with (P := Forall (RefB (ExprB M) off)); [apply br_an_args, Ha|].
-    intros args' Ha'. cbn. repeat split; try assumption.
+    intros args' Ha'. cbn. bsplit.
     destruct (Nat.compare _ _); [exact Hinf | |]; apply InfoB_range_err, Hinf.
   - intros (Hinf & Hc & Ht & He).
     apply br_bind with (P := OptB (RefB (ExprB M)) off); [apply br_an_cond, Hc|]. intros c' Hc'.
@@ -319,13 +323,13 @@ Proof.
     apply br_bind with (P := fun r => match r with Some (x, o) => StmtB M (off + o) x | None => True end).
     { destruct e as [[x o]|]; [|exact I].
       apply br_bind with (P := StmtB M (off + o)); [apply br_an_stmt, He | intros x' Hx'; exact Hx']. }
-    intros e' He'. cbn. repeat split; assumption.
+    intros e' He'. cbn. bsplit.
   - intros (Hinf & Hc & Hb).
     apply br_bind with (P := OptB (RefB (ExprB M)) off); [apply br_an_cond, Hc|]. intros c' Hc'.
     apply br_bind with (P := fun r => match r with Some (x, o) => StmtB M (off + o) x | None => True end).
     { destruct b as [[x o]|]; [|exact I].
       apply br_bind with (P := StmtB M (off + o)); [apply br_an_stmt, Hb | intros x' Hx'; exact Hx']. }
-    intros b' Hb'. cbn. repeat split; assumption.
+    intros b' Hb'. cbn. bsplit.
   - intros H. apply StmtB_block in H as [Hinf H].
     apply br_bind with (P := Forall (RefB (StmtB M) off)); [|intros body' Hb'; apply StmtB_block; split; assumption].
     clear Hinf. induction body as [|[x o] r IHr]; [constructor|].
@@ -354,7 +358,7 @@ Proof.
   destruct (negb _); [exact H|].
   unfold RefB in H. cbn [fst snd GdeclB] in H. destruct H as (Hi & Hn & Hps & Hvs & Hss).
   apply br_bind with (P := Forall (RefB (StmtB M) (off + o))); [apply br_an_stmts, Hss|].
-  intros stmts' Hs'. unfold RefB, GdeclB, ProcdeclB. cbn. repeat split; assumption.
+  intros stmts' Hs'. rewrite En in Hn. unfold RefB, GdeclB, ProcdeclB. cbn. bsplit.
 Qed.
 
 Lemma br_analyze_gdecls off t ds :
@@ -479,3 +483,161 @@ Proof.
 Qed.
 
 End SemBound.
+
+(* ------------------------------------------------------------------------------------------ *)
+(* the tree of a document *)
+
+Lemma Spans_starts toks l : forall a b, Spans toks a l b -> StartsAt0 l.
+Proof.
+  induction l as [|[g off] l IH]; intros a b; cbn [Spans]; [constructor|].
+  intros (_ & H0 & _ & _ & Hr). constructor; [exact H0 | eapply IH, Hr].
+Qed.
+
+Lemma parse_starts toks p : EofLast toks -> parse toks = Done p -> StartsAt0 (pg_decls p).
+Proof. intros HE H. destruct (T5_sync toks p HE H) as (Hs & _). eapply Spans_starts, Hs. Qed.
+
+(* RangesInBounds: every range of the tree, read at its accumulated Reference offset, ends at or
+   before the Eof token; in particular every error range `tree_errors` publishes *)
+Definition RangesInBounds (toks : list token) (p : program) : Prop := ProgB (length toks - 1) p.
+
+Theorem build_bounded M p p' t : ProgB M p -> StartsAt0 (pg_decls p) -> build_res p = ROk (p', t) -> ProgB M p'.
+Proof. intros H H0 E. pose proof (br_build_res M p H H0) as Hr. rewrite E in Hr. exact Hr. Qed.
+
+Theorem analyze_bounded M p t p' : ProgB M p -> analyze_res p t = ROk p' -> ProgB M p'.
+Proof. intros H E. pose proof (br_analyze_res M p t H) as Hr. rewrite E in Hr. exact Hr. Qed.
+
+Theorem doc_bounded t d : new_doc_res t = ODone d -> RangesInBounds (d_toks d) (d_ast d) /\ EofLast (d_toks d).
+Proof.
+  intros H. destruct (new_doc_shape t d H) as (_ & _ & HE & _ & p & p1 & Hp & Hb & Ha).
+  split; [|exact HE]. unfold RangesInBounds.
+  eapply analyze_bounded; [|exact Ha]. eapply build_bounded; [| |exact Hb].
+  - now apply parse_bounded.
+  - now apply (parse_starts (d_toks d)).
+Qed.
+
+Theorem doc_errors_bounded t d :
+  new_doc_res t = ODone d -> Forall (fun x => e_e x < length (d_toks d)) (tree_errors (d_ast d)).
+Proof.
+  intros H. destruct (doc_bounded t d H) as [Hb HE]. pose proof (N_pos _ HE) as HN.
+  eapply Forall_impl; [|exact (tree_errors_B _ _ Hb)]. intros x Hx. unfold ErrB in Hx. lia.
+Qed.
+
+(* ------------------------------------------------------------------------------------------ *)
+(* errors(): token range -> byte range *)
+
+Lemma hd_error_none {A} (l : list A) : hd_error l = None -> l = [].
+Proof. destruct l; [reflexivity | discriminate]. Qed.
+
+Lemma byte_range_ok toks x : e_e x < length toks -> exists y, byte_range toks x = ROk y.
+Proof.
+  intros H. unfold byte_range. destruct (Nat.ltb (e_s x) (e_e x)) eqn:E1.
+  - apply Nat.ltb_lt in E1. rewrite (proj2 (Nat.ltb_ge (length toks) (e_e x))) by lia.
+    set (sl := firstn (e_e x - e_s x) (skipn (e_s x) toks)).
+    assert (Hl : 0 < length sl) by (unfold sl; rewrite firstn_length, skipn_length; lia).
+    destruct (hd_error sl) as [a|] eqn:Ea.
+    2:{ apply hd_error_none in Ea. rewrite Ea in Hl. cbn in Hl. lia. }
+    destruct (hd_error (rev sl)) as [b|] eqn:Eb; [eauto|].
+    apply hd_error_none in Eb. apply (f_equal (@length token)) in Eb. rewrite rev_length in Eb. cbn in Eb. lia.
+  - destruct (nth_error toks (e_e x)) as [t|] eqn:Et; [eauto|].
+    apply nth_error_None in Et. lia.
+Qed.
+
+Lemma byte_ranges_ok toks l :
+  Forall (fun x => e_e x < length toks) l -> exists r, byte_ranges toks l = ROk r.
+Proof.
+  induction 1 as [|x l Hx Hl [r IH]]; cbn [byte_ranges]; [eauto|].
+  destruct (byte_range_ok toks x Hx) as [y ->]. rewrite IH. cbn. eauto.
+Qed.
+
+Lemma In_firstn {A} n (l : list A) x : In x (firstn n l) -> In x l.
+Proof. intros H. rewrite <- (firstn_skipn n l). apply in_or_app. now left. Qed.
+
+Lemma Ordered_nth lo l : Ordered lo l -> forall j b, nth_error l j = Some b -> (lo <= ts b /\ ts b <= te b)%N.
+Proof.
+  induction 1 as [lo | lo t tl H1 H2 H3 H4 IH]; intros j b Hj; [destruct j; discriminate|].
+  destruct j as [|j]; cbn [nth_error] in Hj.
+  - injection Hj as <-. split; assumption.
+  - destruct (IH j b Hj) as [A B]. split; [|exact B]. apply N.le_trans with (te t); [|exact A].
+    apply N.le_trans with (ts t); assumption.
+Qed.
+
+Lemma Ordered_pair lo l : Ordered lo l ->
+  forall i j a b, i <= j -> nth_error l i = Some a -> nth_error l j = Some b -> (ts a <= te b)%N.
+Proof.
+  induction 1 as [lo | lo t tl H1 H2 H3 H4 IH]; intros i j a b Hij Hi Hj; [destruct i; discriminate|].
+  destruct i as [|i], j as [|j]; cbn [nth_error] in *; try lia.
+  - assert (a = t) by congruence. assert (b = t) by congruence. subst a b. exact H2.
+  - assert (a = t) by congruence. subst a. destruct (Ordered_nth _ _ H4 j b Hj) as [A B].
+    apply N.le_trans with (te t); [exact H2|]. apply N.le_trans with (ts b); assumption.
+  - eapply IH; [|exact Hi|exact Hj]. lia.
+Qed.
+
+Lemma byte_range_inside toks B x y :
+  Ordered 0 toks -> Forall (fun t => (te t <= B)%N) toks -> byte_range toks x = ROk y ->
+  (fst (fst y) <= snd (fst y) <= B)%N.
+Proof.
+  intros Ho Hb. rewrite Forall_forall in Hb. unfold byte_range. destruct (Nat.ltb (e_s x) (e_e x)) eqn:E1.
+  - destruct (Nat.ltb (length toks) (e_e x)); [discriminate|].
+    set (sl := firstn (e_e x - e_s x) (skipn (e_s x) toks)).
+    destruct (hd_error sl) as [a|] eqn:Ea; [|discriminate].
+    destruct (hd_error (rev sl)) as [b|] eqn:Eb; [|discriminate].
+    intros [= <-]. cbn [fst snd].
+    assert (Ha : nth_error toks (e_s x) = Some a).
+    { unfold sl in Ea. apply Nat.ltb_lt in E1.
+      destruct (e_e x - e_s x) as [|n] eqn:En; [lia|].
+      destruct (skipn (e_s x) toks) as [|t0 r] eqn:Es; [discriminate|]. cbn in Ea. injection Ea as <-.
+      pose proof (nth_error_skipn_add toks (e_s x) 0) as Hn. rewrite Es in Hn. cbn in Hn.
+      rewrite Nat.add_0_r in Hn. congruence. }
+    assert (Hbn : exists j, e_s x <= j /\ nth_error toks j = Some b).
+    { assert (Hin : In b (skipn (e_s x) toks)).
+      { apply In_firstn with (n := e_e x - e_s x). fold sl. apply in_rev.
+        destruct (rev sl) as [|b0 r]; [discriminate|]. cbn in Eb. injection Eb as <-. now left. }
+      apply In_nth_error in Hin as [k Hk]. rewrite nth_error_skipn_add in Hk.
+      exists (e_s x + k). split; [lia | exact Hk]. }
+    destruct Hbn as (j & Hj1 & Hj2). split.
+    + eapply Ordered_pair; [exact Ho | exact Hj1 | exact Ha | exact Hj2].
+    + apply Hb. eapply nth_error_In, Hj2.
+  - destruct (nth_error toks (e_e x)) as [t|] eqn:Et; [|discriminate]. intros [= <-]. cbn [fst snd].
+    split; [apply N.le_refl | apply Hb; eapply nth_error_In, Et].
+Qed.
+
+Lemma byte_ranges_inside toks B l r :
+  Ordered 0 toks -> Forall (fun t => (te t <= B)%N) toks -> byte_ranges toks l = ROk r ->
+  Forall (fun y => (fst (fst y) <= snd (fst y) <= B)%N) r.
+Proof.
+  intros Ho Hb. revert r. induction l as [|x l IH]; intros r; cbn [byte_ranges]; [intros [= <-]; constructor|].
+  destruct (byte_range toks x) as [y|] eqn:Ey; cbn [rbind]; [|discriminate].
+  destruct (byte_ranges toks l) as [r'|]; cbn [rbind]; [|discriminate].
+  intros [= <-]. constructor; [eapply byte_range_inside; eassumption | now apply IH].
+Qed.
+
+Lemma lex_tokens_inside t toks : lex t = Some toks -> Forall (fun k => (te k <= blen t)%N) toks.
+Proof.
+  intros H. eapply Forall_impl; [|exact (tiles_boundaries 0 t toks (lex_tiles t toks H))].
+  cbn beta. intros k (a & b & c & -> & H1 & H2). rewrite !blen_app. lia.
+Qed.
+
+(* ------------------------------------------------------------------------------------------ *)
+(* AnalyzedSource::errors() never panics ... *)
+Theorem doc_errors_total t d : new_doc_res t = ODone d -> exists l, doc_errors_res d = ROk l.
+Proof. intros H. unfold doc_errors_res. apply byte_ranges_ok. exact (doc_errors_bounded t d H). Qed.
+
+(* ... and every byte range it publishes lies inside the document *)
+Theorem errors_inside t d l :
+  new_doc_res t = ODone d -> doc_errors_res d = ROk l ->
+  Forall (fun y => (fst (fst y) <= snd (fst y) <= blen t)%N) l.
+Proof.
+  intros H Hl. destruct (new_doc_shape t d H) as (_ & Hlex & _).
+  unfold doc_errors_res in Hl. eapply byte_ranges_inside; [| |exact Hl].
+  - exact (tiles_ordered 0 t _ (lex_tiles t _ Hlex)).
+  - exact (lex_tokens_inside t _ Hlex).
+Qed.
+
+(* the robustness core of C02 in one statement *)
+Theorem analysis_total t :
+  exists d l, new_doc_res t = ODone d /\ doc_errors_res d = ROk l /\
+              Forall (fun y => (fst (fst y) <= snd (fst y) <= blen t)%N) l.
+Proof.
+  destruct (new_doc_total t) as [d Hd]. destruct (doc_errors_total t d Hd) as [l Hl].
+  exists d, l. split; [exact Hd|]. split; [exact Hl | exact (errors_inside t d l Hd Hl)].
+Qed.
